@@ -10,12 +10,14 @@ import (
 	"runtime"
 	"sort"
 	"strconv"
+	"strings"
 	"sync"
 	"sync/atomic"
 	"testing/synctest"
 	"time"
 
 	"github.com/PowerDNS/lightningstream/utils/verifhook"
+	"github.com/PowerDNS/lmdb-go/lmdb"
 )
 
 // Task is one goroutine of the system under test that the scheduler controls.
@@ -30,8 +32,10 @@ type Task struct {
 	resume    chan resumeMsg
 	point     string
 	prevPoint string
-	relPoint  string // point the task was last released from
+	relPoint  string // point the task was last released from (transaction boundaries "lmdb:*" do not count)
 	relPrev   string // point it had parked at before that
+	relRaw    string // point the task was last released from, including transaction boundaries
+	openTxns  int    // top-level LMDB transactions this goroutine has open
 	parked    bool
 	exited    bool
 	nPark     int
@@ -85,6 +89,7 @@ func init() {
 	verifhook.PickFn = hookPick
 	verifhook.ExpiredFn = hookExpired
 	verifhook.PreferDoneFn = func(ctx context.Context) bool { return cur.Load() != nil && ctx.Err() != nil }
+	lmdb.TxnHook = hookTxn
 }
 
 func NewSim(t *Tape) *Sim {
@@ -274,6 +279,38 @@ func hookExpired(point string) bool {
 	return false
 }
 
+// hookTxn makes every top-level LMDB transaction boundary of a simulated
+// goroutine a scheduling point: before the transaction begins (nothing is
+// held) and after it has ended. A goroutine that already has a transaction
+// open is never suspended (it may hold the write lock).
+func hookTxn(ev lmdb.TxnEvent, write bool) {
+	s := cur.Load()
+	if s == nil {
+		return
+	}
+	t := s.lookup()
+	if t == nil {
+		return
+	}
+	kind := "read"
+	if write {
+		kind = "write"
+	}
+	switch ev {
+	case lmdb.TxnBeforeBegin:
+		if t.openTxns == 0 {
+			s.park(t, "lmdb:begin-"+kind)
+		}
+	case lmdb.TxnBegun:
+		t.openTxns++
+	case lmdb.TxnEnded:
+		t.openTxns--
+		if t.openTxns == 0 {
+			s.park(t, "lmdb:end-"+kind)
+		}
+	}
+}
+
 // park suspends the calling task until the driver releases it.
 func (s *Sim) park(t *Task, point string) {
 	if t.Node != nil && t.Node.Dead(t) {
@@ -341,8 +378,11 @@ func (s *Sim) Release(t *Task) {
 	}
 	t.parked = false
 	p := t.point
-	t.relPoint = t.point
-	t.relPrev = t.prevPoint
+	t.relRaw = t.point
+	if !strings.HasPrefix(t.point, "lmdb:") {
+		t.relPoint = t.point
+		t.relPrev = t.prevPoint
+	}
 	s.mu.Unlock()
 	s.Step++
 	s.Logf("%d t=%s run %s @%s", s.Step, s.Now(), t.ID, p)
